@@ -5,10 +5,10 @@ import re
 from . import core
 
 PID = "C03"
-MANIFEST = dict(text="Theorems range_canonical / range_denotation / range_classification about the Gallina model of parse_range "
+MANIFEST = dict(text="Theorems range_canonical / range_denotation / range_classification / number_meaning about the Gallina model of parse_range "
              "(regex scan, spec arithmetic, sort+coalesce) hold for every header text and every size; the model is compared with "
              "the live parse_range on an exhaustive small domain, random range sets, arbitrary text and the \\d table.",
-        note="Modelled, not verified: re.findall's scan (transcribed as a two-phase scanner), int() incl. its 4300-digit limit, "
+        note="Modelled, not verified: re.findall's scan (transcribed as a two-phase scanner), int() incl. its 4300-digit limit (a longer number, leading zeros apart, stands for a position beyond the file), "
              "sorted(); size >= 0.",
         technique="Coq proof (fold invariant, sortedness, interval-union extensionality) + executable model/implementation correspondence",
         ref="5/C03")
@@ -122,6 +122,15 @@ def impl(case):
 _spec = re.compile(r"^(?:([0-9]+)-([0-9]+)|([0-9]+)-|-([0-9]+))$")
 
 
+def _int(digits):
+    """the number a digit string denotes, whatever its length (int() itself refuses more than 4300 digits)"""
+    n = 0
+    for i in range(0, len(digits), 4000):
+        piece = digits[i:i + 4000]
+        n = n * 10 ** len(piece) + int(piece)
+    return n
+
+
 def strict_specs(header):
     """The spec list if the header is a comma/OWS separated list of specs, else None."""
     if not header.startswith("bytes="):
@@ -131,14 +140,12 @@ def strict_specs(header):
         m = _spec.match(item.strip(" \t"))
         if not m:
             return None
-        if any(g is not None and len(g) > 4300 for g in m.groups()):
-            return None
         if m.group(1) is not None:
-            out.append(("fl", int(m.group(1)), int(m.group(2))))
+            out.append(("fl", _int(m.group(1)), _int(m.group(2))))
         elif m.group(3) is not None:
-            out.append(("f", int(m.group(3))))
+            out.append(("f", _int(m.group(3))))
         else:
-            out.append(("s", int(m.group(4))))
+            out.append(("s", _int(m.group(4))))
     return out
 
 
